@@ -1,0 +1,101 @@
+//go:build verif
+
+package db
+
+// Contracts for property C03 (effective access = admin grants + document grants + public, through roles):
+// how a document's sync-function output is recorded in the document (the grants the access queries later read).
+// Comment-only; read by /verif/engine.
+
+//@ props C03
+
+// (user, channel) is granted by the access map / by the sync function output
+//@ pred amGrants(m UserAccessMap, u string, c string) bool
+//@   is (u in m) && (c in m[u])
+//@ pred newGrants(m channels.AccessMap, u string, c string) bool
+//@   is (u in m) && (c in m[u])
+
+// the per-user sets of a stored access map are real, pairwise different map objects (true of a map produced by
+// JSON unmarshalling or by updateAccess itself; a shared or nil set would make UpdateAtSequence corrupt or panic)
+//@ pred amWF(m UserAccessMap) bool
+//@   is (forall u string :: {u in m} {m[u]} (u in m) ==> m[u] != nil) && (forall a string, b string :: {m[a], m[b]} (a in m) && (b in m) && a != b ==> m[a] != m[b])
+
+// updateAccess: afterwards the document grants exactly what the sync function output says, pair by pair
+// (user, channel); grants that persist keep their sequence, new grants are stamped with the document's
+// sequence; every user whose grants differ between before and after is reported (a missed name would be a
+// missed invalidation, i.e. a missed revoke or grant).
+//@ func UserAccessMap.updateAccess
+//@   safety on
+//@   requires accessMap != nil && doc != nil && amWF(*accessMap)
+//@   modifies *
+//@   ensures[exact]    forall u string, c string :: {amGrants(*accessMap, u, c)} amGrants(*accessMap, u, c) <==> newGrants(newAccess, u, c)
+//@   ensures[kept]     forall u string, c string :: {(*accessMap)[u][c]} old(amGrants(*accessMap, u, c)) && newGrants(newAccess, u, c) ==> (*accessMap)[u][c] == old((*accessMap)[u][c])
+//@   ensures[stamped]  forall u string, c string :: {(*accessMap)[u][c]} !old(amGrants(*accessMap, u, c)) && newGrants(newAccess, u, c) ==> (*accessMap)[u][c].Sequence == old(doc.Sequence)
+//@   ensures[changed-complete] forall u string, c string :: {old(c in (*accessMap)[u])} {c in newAccess[u]} old(amGrants(*accessMap, u, c)) != newGrants(newAccess, u, c) ==> elem(changedUsers, u)
+//@   loop 1 invariant[same-map]  *accessMap == old(*accessMap) && doc.Sequence == old(doc.Sequence)
+//@   loop 1 invariant[keys]      forall u string :: {u in *accessMap} ((u in *accessMap) ==> old(u in *accessMap)) && (old(u in *accessMap) && !(u in #visited) ==> (u in *accessMap))
+//@   loop 1 invariant[sets]      forall u string :: {(*accessMap)[u]} (u in *accessMap) ==> (*accessMap)[u] == old((*accessMap)[u])
+//@   loop 1 invariant[vis]       forall u string :: {u in #visited} (u in #visited) ==> old(u in *accessMap)
+//@   loop 1 invariant[done]      forall u string, c string :: {amGrants(*accessMap, u, c)} (u in #visited) ==> (amGrants(*accessMap, u, c) <==> newGrants(newAccess, u, c))
+//@   loop 1 invariant[todo]      forall u string, c string :: {(*accessMap)[u][c]} {amGrants(*accessMap, u, c)} old(u in *accessMap) && !(u in #visited) ==> (amGrants(*accessMap, u, c) <==> old(amGrants(*accessMap, u, c))) && (*accessMap)[u][c] == old((*accessMap)[u][c])
+//@   loop 1 invariant[kept]      forall u string, c string :: {(*accessMap)[u][c]} old(amGrants(*accessMap, u, c)) && newGrants(newAccess, u, c) ==> (*accessMap)[u][c] == old((*accessMap)[u][c])
+//@   loop 1 invariant[stamped]   forall u string, c string :: {(*accessMap)[u][c]} (u in #visited) && !old(amGrants(*accessMap, u, c)) && newGrants(newAccess, u, c) ==> (*accessMap)[u][c].Sequence == old(doc.Sequence)
+//@   loop * invariant[deleted]   forall u string, c string :: {newGrants(newAccess, u, c)} old(u in *accessMap) && !(u in *accessMap) ==> !newGrants(newAccess, u, c)
+//@   loop 1 invariant[reported]  forall u string, c string :: {old(c in (*accessMap)[u])} {c in newAccess[u]} (u in #visited) && old(amGrants(*accessMap, u, c)) != newGrants(newAccess, u, c) ==> elem(changedUsers, u)
+//@   loop * invariant[del-rep]   forall u string :: {old(u in *accessMap)} {u in *accessMap} old(u in *accessMap) && !(u in *accessMap) ==> elem(changedUsers, u)
+//@   loop 2 invariant[reported]  forall u string, c string :: {old(c in (*accessMap)[u])} {c in newAccess[u]} (u in *accessMap) && old(amGrants(*accessMap, u, c)) != newGrants(newAccess, u, c) ==> elem(changedUsers, u)
+//@   loop 2 invariant[seq]       doc.Sequence == old(doc.Sequence)
+//@   loop 2 invariant[present]   forall u string, c string :: {amGrants(*accessMap, u, c)} (u in *accessMap) ==> (amGrants(*accessMap, u, c) <==> newGrants(newAccess, u, c))
+//@   loop 2 invariant[added]     forall u string :: {u in #visited} (u in #visited) ==> (u in *accessMap) && (u in newAccess)
+//@   loop 2 invariant[kept]      forall u string, c string :: {(*accessMap)[u][c]} old(amGrants(*accessMap, u, c)) && newGrants(newAccess, u, c) && (u in *accessMap) ==> (*accessMap)[u][c] == old((*accessMap)[u][c])
+//@   loop 2 invariant[stamped]   forall u string, c string :: {(*accessMap)[u][c]} !old(amGrants(*accessMap, u, c)) && newGrants(newAccess, u, c) && (u in *accessMap) ==> (*accessMap)[u][c].Sequence == old(doc.Sequence)
+
+// ---- the document's channel assignment ----
+
+//@ func SyncData.hasFlag
+//@   pure
+
+// channel c is currently assigned to the document (present in the channel map without a removal record)
+//@ pred chActive(m channels.ChannelMap, c string) bool
+//@   is (c in m) && m[c] == nil
+
+// updateChannelHistory only rewrites the document's channel-history lists.
+//@ func Document.updateChannelHistory
+//@   requires doc != nil
+//@   modifies doc.ChannelSet, elems(doc.ChannelSet), doc.ChannelSetHistory, elems(doc.ChannelSetHistory)
+
+// updateChannels(S): afterwards the document's active channels are exactly S; a channel that was active and is
+// not in S gets a removal record stamped with the document's current sequence and revision; channels removed
+// earlier keep their record untouched; no channel entry is dropped.
+//@ func Document.updateChannels
+//@   safety on
+//@   requires doc != nil
+//@   modifies doc.Channels, elems(doc.Channels), doc.ChannelSet, elems(doc.ChannelSet), doc.ChannelSetHistory, elems(doc.ChannelSetHistory)
+//@   ensures[map-kept]       old(doc.Channels) != nil ==> doc.Channels == old(doc.Channels)
+//@   ensures[keys]           forall c string :: {c in doc.Channels} (c in doc.Channels) <==> old(c in doc.Channels) || (c in newChannels)
+//@   ensures[active]         forall c string :: {chActive(doc.Channels, c)} chActive(doc.Channels, c) <==> (c in newChannels)
+//@   ensures[removed-now]    forall c string :: {doc.Channels[c]} old(chActive(doc.Channels, c)) && !(c in newChannels) ==> doc.Channels[c] != nil && doc.Channels[c].Seq == old(doc.Sequence) && doc.Channels[c].Rev == old(doc.RevAndVersion) && doc.Channels[c].Deleted == old(doc.SyncData.hasFlag(channels.Deleted))
+//@   ensures[removed-before] forall c string :: {doc.Channels[c]} old((c in doc.Channels) && doc.Channels[c] != nil) && !(c in newChannels) ==> doc.Channels[c] == old(doc.Channels[c])
+//@   ensures[records-kept]   forall r *channels.ChannelRemoval :: {r.Seq} {r.Rev} {r.Deleted} old(allocated(r)) ==> r.Seq == old(r.Seq) && r.Rev == old(r.Rev) && r.Deleted == old(r.Deleted)
+//@   ensures[changed-sound]    isNilErr(err) ==> (forall c string :: {c in changedChannels} (c in changedChannels) ==> old(chActive(doc.Channels, c)) != (c in newChannels))
+//@   ensures[changed-complete] isNilErr(err) ==> (forall c string :: {c in newChannels} {old(c in doc.Channels)} old(chActive(doc.Channels, c)) != (c in newChannels) ==> (c in changedChannels))
+//@   loop 1 invariant[ch-sound]     forall i int :: {changed[i]} 0 <= i && i < len(changed) ==> (changed[i] in #visited) && old(chActive(doc.Channels, now(changed[i]))) && !(changed[i] in newChannels)
+//@   loop 1 invariant[ch-complete]  forall c string :: {c in #visited} (c in #visited) && old(chActive(doc.Channels, c)) && !(c in newChannels) ==> elem(changed, c)
+//@   loop 2 invariant[ch-sound]     forall i int :: {changed[i]} 0 <= i && i < len(changed) ==> (old(chActive(doc.Channels, now(changed[i]))) && !(changed[i] in newChannels)) || ((changed[i] in #visited) && !old(chActive(doc.Channels, now(changed[i]))))
+//@   loop 2 invariant[ch-complete]  forall c string :: {c in #visited} {old(c in doc.Channels)} (old(chActive(doc.Channels, c)) && !(c in newChannels)) || ((c in #visited) && !old(chActive(doc.Channels, c))) ==> elem(changed, c)
+//@   loop * invariant[doc]          doc.Sequence == old(doc.Sequence) && doc.RevAndVersion == old(doc.RevAndVersion) && doc.Flags == old(doc.Flags)
+//@   loop * invariant[records-kept] forall r *channels.ChannelRemoval :: {r.Seq} {r.Rev} {r.Deleted} old(allocated(r)) ==> r.Seq == old(r.Seq) && r.Rev == old(r.Rev) && r.Deleted == old(r.Deleted)
+//@   loop 1 invariant[map]          doc.Channels == old(doc.Channels) && doc.Channels != nil
+//@   loop 1 invariant[keys]         forall c string :: {c in doc.Channels} (c in doc.Channels) <==> old(c in doc.Channels)
+//@   loop 1 invariant[vis]          forall c string :: {c in #visited} (c in #visited) ==> old(c in doc.Channels)
+//@   loop 1 invariant[active]       forall c string :: {chActive(doc.Channels, c)} chActive(doc.Channels, c) <==> old(chActive(doc.Channels, c)) && !((c in #visited) && !(c in newChannels))
+//@   loop 1 invariant[rm-new]       forall c string :: {doc.Channels[c]} (c in #visited) && old(chActive(doc.Channels, c)) && !(c in newChannels) ==> doc.Channels[c] != nil && !old(allocated(now(doc.Channels[c])))
+//@   loop 1 invariant[rm-seq]       forall c string :: {doc.Channels[c]} (c in #visited) && old(chActive(doc.Channels, c)) && !(c in newChannels) ==> doc.Channels[c].Seq == old(doc.Sequence)
+//@   loop 1 invariant[rm-rev]       forall c string :: {doc.Channels[c]} (c in #visited) && old(chActive(doc.Channels, c)) && !(c in newChannels) ==> doc.Channels[c].Rev == old(doc.RevAndVersion)
+//@   loop 1 invariant[rm-del]       forall c string :: {doc.Channels[c]} (c in #visited) && old(chActive(doc.Channels, c)) && !(c in newChannels) ==> doc.Channels[c].Deleted == old(doc.SyncData.hasFlag(channels.Deleted))
+//@   loop 1 invariant[untouched]    forall c string :: {doc.Channels[c]} !((c in #visited) && old(chActive(doc.Channels, c)) && !(c in newChannels)) ==> doc.Channels[c] == old(doc.Channels[c])
+//@   loop 2 invariant[map]          doc.Channels == oldChannels && doc.Channels != nil && (old(doc.Channels) != nil ==> doc.Channels == old(doc.Channels))
+//@   loop 2 invariant[keys]         forall c string :: {c in doc.Channels} (c in doc.Channels) <==> old(c in doc.Channels) || (c in #visited)
+//@   loop 2 invariant[vis]          forall c string :: {c in #visited} (c in #visited) ==> (c in newChannels)
+//@   loop 2 invariant[active]       forall c string :: {chActive(doc.Channels, c)} chActive(doc.Channels, c) <==> (old(chActive(doc.Channels, c)) && (c in newChannels)) || (c in #visited)
+//@   loop 2 invariant[removed-now]  forall c string :: {doc.Channels[c]} old(chActive(doc.Channels, c)) && !(c in newChannels) ==> doc.Channels[c] != nil && doc.Channels[c].Seq == old(doc.Sequence) && doc.Channels[c].Rev == old(doc.RevAndVersion) && doc.Channels[c].Deleted == old(doc.SyncData.hasFlag(channels.Deleted))
+//@   loop 2 invariant[removed-before] forall c string :: {doc.Channels[c]} old((c in doc.Channels) && doc.Channels[c] != nil) && !(c in newChannels) ==> doc.Channels[c] == old(doc.Channels[c])
